@@ -478,6 +478,14 @@ class Ev:
         return {'kind': self.kind, 'loc': self.loc(), 'text': repr(self)[:300]}
 
 
+class Pos:
+    """a program point: just before event idx of block blk"""
+    __slots__ = ('blk', 'idx')
+
+    def __init__(self, blk, idx):
+        self.blk, self.idx = blk, idx
+
+
 class Block:
     __slots__ = ('id', 'events', 'succs', 'preds', 'cond', 'noreturn', 'term', 'label', 'term_ln', 'term_op')
 
@@ -847,6 +855,32 @@ class Fn:
         pred(ev).  Returns (ok, offending block path or None)"""
         _h, exits, _n = self.search(start, stop=pred, edge_filter=edge_filter)
         return (not exits), (exits[0] if exits else None)
+
+    def uncut_path(self, target, atom_pred, start=('entry',), also_stop=None):
+        """cut-set query: is `target` (an event, or None for the normal exit)
+        reachable from `start` without crossing a labelled edge that carries an
+        atom with atom_pred(atom, from_block)?  Returns a block path if so (=
+        the cut does not hold), else None."""
+        def ef(fb, t, lab):
+            if fb.cond is None:
+                return True
+            if lab is True or lab is False:
+                ats = atoms_of(fb.cond, lab)
+            elif isinstance(lab, tuple) and lab[0] == 'case' and lab[1] == lab[2]:
+                ats = [Atom(fb.cond, '==', {'k': 'int', 'cv': lab[1]})]
+            else:
+                return True
+            return not any(atom_pred(a, fb) for a in ats)
+        if target is None:
+            _h, exits, _n = self.search(start, stop=also_stop, edge_filter=ef)
+            return exits[0] if exits else None
+        hits, _e, _n = self.search(start, goal=lambda ev: ev is target or ev.d is target.d, stop=also_stop, edge_filter=ef)
+        return hits[0][1] if hits else None
+
+    def end_of(self, bid):
+        """program point after the last event of a block (where its condition
+        is decided)"""
+        return Pos(bid, len(self.blocks[bid].events))
 
     def path_lines(self, path):
         """human readable rendering of a block path"""
